@@ -20,7 +20,7 @@ from .vals import EngineError
 from .extract import StaleContract
 from .models import pylists, pyannote_  # noqa: F401  (registers the models)
 from . import heap  # noqa: F401  (tier B layer)
-from .models import numpy_cvx, genexp, csvio  # noqa: F401,E402
+from .models import numpy_cvx, genexp, csvio, rng  # noqa: F401,E402
 
 ROOT = os.path.dirname(os.path.dirname(os.path.abspath(__file__)))
 CONTRACT_MODULES = ["numba_utils", "dissimilarity", "continuum", "alignment", "sampler"]
@@ -161,6 +161,9 @@ def check_property(prop, tier, seed, timeout_s):
         from . import cliwiring
         wobls, _opts = cliwiring.obligations()
         all_obls += wobls
+    if spec.get("lawtags"):
+        from . import lawtags
+        all_obls += lawtags.obligations()
     if os.environ.get("VERIF_SAVE_LADDER_HINTS"):
         discharge.save_hints(all_obls)
     # vacuity: no reachability point may have contradictory hypotheses
